@@ -628,6 +628,40 @@ impl W {
     }
 }
 
+/// For every message that asks for the shortened checksum field (`crc_short`), varies its group number
+/// (and, if needed, the abort-on-error byte) until the checksum's first wire byte is zero, so that the
+/// one-byte encoding `62 xx` really is used (by chance it applies to one message in 256 only; real meters
+/// do send it). Returns the number of messages that now use the short form.
+pub fn grind_short_crc(file: &mut CFile) -> usize {
+    let mut n = 0;
+    for m in &mut file.msgs {
+        if !m.crc_short || m.group_no.width != 1 || m.abort_on_error.width != 1 {
+            continue;
+        }
+        let (g0, a0) = (m.group_no.value, m.abort_on_error.value);
+        let mut found = false;
+        'search: for a in [a0, 0x00, 0xff, 0x01] {
+            for g in 0..=255u64 {
+                m.group_no.value = g;
+                m.abort_on_error.value = a;
+                let mut w = W { out: Written::default() };
+                w.msg(m);
+                if w.out.msgs[0].crc_width == 1 {
+                    found = true;
+                    break 'search;
+                }
+            }
+        }
+        if found {
+            n += 1;
+        } else {
+            m.group_no.value = g0;
+            m.abort_on_error.value = a0;
+        }
+    }
+    n
+}
+
 pub fn write(file: &CFile) -> Written {
     let mut w = W { out: Written::default() };
     for m in &file.msgs {
